@@ -44,6 +44,9 @@ PLAIN = {"numeric", "array", "loop"}
 # --------------------------------------------------------------------------------------------- comparison
 
 def canon(v, loop_vars=()):
+    if hasattr(v, "free_symbols") and not v.free_symbols:
+        import strawberryfields.parameters as sfpar
+        v = sfpar.par_evaluate(v)        # a constant symbolic expression is the number it denotes
     try:
         return ioir.strip_val(ioir.val_json(v, loop_vars=loop_vars))
     except ioir.Unrep:
@@ -305,16 +308,193 @@ def oracle_spec(ctx, sf, spec, via="text", check_state=True, check_code=True):
         oracle_code(ctx, sf, spec, rp)
 
 
-def oracle_code(ctx, sf, spec, rp):
-    p = ioir.build(spec)
+def serialise(p, ir, **kw):
+    from strawberryfields.io import to_blackbird, to_xir
+    return (to_blackbird(p) if ir == "blackbird" else to_xir(p, **kw)).serialize()
+
+
+def oracle_history(ctx, sf, spec_a, spec_b, share):
+    """history independence and object sharing: write A, write B, write A again; load the same text twice;
+    A and B may share Operation instances (one op_cache); nothing that was written or loaded may change"""
+    rp = dict(kind="pair", a=spec_a, b=spec_b, share=share)
+    cache = {} if share else None
+    for ir in ("blackbird", "xir"):
+        tag = ir + ("-tdm" if spec_a.get("tdm") else "")
+        try:
+            pa, pb = ioir.build(spec_a, op_cache=cache), ioir.build(spec_b, op_cache=cache)
+            sa, sb = snapshot(pa), snapshot(pb)
+            try:
+                t1 = serialise(pa, ir); serialise(pb, ir); t2 = serialise(pa, ir)
+                tb = serialise(pb, ir)
+            except Exception as e:  # noqa: BLE001
+                # programs that cannot be written at all (refused inverse, 1-D arrays in Blackbird) are judged by oracle_spec
+                if not isinstance(roundtrip(sf, ioir.build(spec_a), ir, "text")[1], Exception) and \
+                        not isinstance(roundtrip(sf, ioir.build(spec_b), ir, "text")[1], Exception):
+                    raise
+                ctx.tally("history-skipped:unwritable")
+                continue
+            ctx.oracle_cases += 1
+            if t1 != t2:
+                ctx.fail(f"{tag}:text-depends-on-history", f"writing {spec_a['name']} before and after writing {spec_b['name']} gives different text", rp)
+            if snapshot(pa) != sa or snapshot(pb) != sb:
+                ctx.fail(f"{tag}:writer-mutates-program", f"{ir} writer changed a program (shared operations: {share})", rp)
+            fresh = serialise(ioir.build(spec_a), ir)
+            if fresh != t1:
+                ctx.fail(f"{tag}:text-depends-on-sharing", f"{spec_a['name']} with shared Operation instances is written differently from the same program with fresh ones", rp)
+            try:
+                q1 = sf.io.loads(t1, ir=ir)
+                f1 = snapshot(q1)
+                qb = sf.io.loads(tb, ir=ir)
+                q2 = sf.io.loads(t1, ir=ir)
+            except Exception:  # noqa: BLE001   (unloadable text is judged by oracle_spec)
+                continue
+            if snapshot(q1) != f1:
+                ctx.fail(f"{tag}:load-changes-earlier-loaded-program", "loading further texts changed a program loaded before", rp)
+            if snapshot(q2) != f1:
+                ctx.fail(f"{tag}:load-depends-on-history", "loading the same text twice gives different programs", rp)
+            # chain: save -> load -> save -> load -> save: the text is a fixed point after the first load
+            t3 = serialise(q1, ir)
+            q3 = sf.io.loads(t3, ir=ir)
+            t4 = serialise(q3, ir)
+            if t3 != t4:
+                ctx.fail(f"{tag}:chain-not-stable", f"save/load chain keeps changing the text of {spec_a['name']}", rp)
+        except Exception as e:  # noqa: BLE001
+            ctx.fail(f"{tag}:history-oracle-raises:{type(e).__name__}", f"{type(e).__name__}: {str(e)[:120]} ({spec_a['name']}, {spec_b['name']})", rp)
+
+
+def oracle_compiled(ctx, sf, spec):
+    """the output of Program.compile (linked copy: shares registers and Operation objects with the source,
+    carries a target and daggered decomposition products) must round-trip like any program"""
+    rp = dict(kind="compiled", spec=spec)
+    try:
+        pc = ioir.build(spec).compile(compiler="gaussian")
+    except Exception:  # noqa: BLE001
+        ctx.tally("compile-skipped")
+        return
+    for ir in ("blackbird", "xir"):
+        ctx.oracle_cases += 1
+        try:
+            before = snapshot(pc)
+            stage, p2 = roundtrip(sf, pc, ir, "text")
+            if snapshot(pc) != before:
+                ctx.fail(f"{ir}:writer-mutates-program:compiled", f"writing the compiled {spec['name']} changed it", rp)
+            if stage != "ok":
+                if ir == "blackbird" and isinstance(p2, ValueError) and "inverse" in str(p2):
+                    ctx.tally("refused:blackbird-dagger")
+                    continue
+                ctx.fail(f"{ir}:{stage}-raises:{type(p2).__name__}:compiled", f"compiled {spec['name']}: {str(p2)[:100]}", rp)
+                continue
+            for sig, what in diff_programs(pc, p2, ir, dict(ops=[])):
+                ctx.fail(sig, what + f" [compiled {spec['name']}]", rp)
+            s1 = state_of(sf, ioir.build(spec).compile(compiler="gaussian"), "gaussian")
+            s2 = state_of(sf, p2, "gaussian")
+            why = states_differ(sf, s1, s2)
+            if why:
+                ctx.fail(f"{ir}:state-differs:compiled", f"compiled {spec['name']}: {why}", rp)
+        except Exception as e:  # noqa: BLE001
+            ctx.fail(f"{ir}:compiled-oracle-raises:{type(e).__name__}", f"{type(e).__name__}: {str(e)[:120]} ({spec['name']})", rp)
+
+
+def oracle_add_decl(ctx, sf, spec):
+    """to_xir(add_decl=True) / sf.save(..., add_decl=True): declarations must not change what is loaded"""
+    rp = dict(kind="add_decl", spec=spec)
+    if any(o["cls"] in ("Del", "New") for o in spec["ops"]):
+        return
+    ctx.oracle_cases += 1
+    try:
+        p = ioir.build(spec)
+        try:
+            p1 = sf.io.loads(serialise(p, "xir"), ir="xir")
+        except Exception:  # noqa: BLE001   (judged by oracle_spec)
+            return
+        p2 = sf.io.loads(serialise(p, "xir", add_decl=True), ir="xir")
+    except Exception as e:  # noqa: BLE001
+        ctx.fail(f"xir:add-decl-raises:{type(e).__name__}", f"{str(e)[:120]} ({spec['name']})", rp)
+        return
+    if snapshot(p1) != snapshot(p2):
+        ctx.fail("xir:add-decl-changes-program", f"to_xir(add_decl=True) reloads differently from to_xir() ({spec['name']})", rp)
+
+
+def oracle_gate_definition(ctx, sf, rng, idx):
+    """XIR scripts with gate definitions (get_expanded_statements): a defined gate applied to wires with
+    parameters must load as its body with parameters and wires substituted, in order, also nested"""
+    n = rng.randint(2, 4)
+    body_classes = [("Sgate", 2, 1), ("Rgate", 1, 1), ("BSgate", 2, 2), ("Dgate", 2, 1)]
+    k_w = rng.randint(1, min(n, 2))
+    k_p = rng.randint(1, 3)
+    body = []
+    for _ in range(rng.randint(1, 3)):
+        cls, npar, nw = rng.choice([b for b in body_classes if b[2] <= k_w])
+        body.append((cls, [rng.randrange(k_p) for _ in range(npar)], rng.sample(range(k_w), nw)))
+    lines = [f"gate G{idx}({', '.join('a%d' % i for i in range(k_p))})[{', '.join('w%d' % i for i in range(k_w))}]:"]
+    for cls, ps, ws in body:
+        lines.append(f"    {cls}({', '.join('a%d' % i for i in ps)}) | [{', '.join('w%d' % i for i in ws)}];")
+    lines.append("end;")
+    expect = []
+    apps = []
+    for _ in range(rng.randint(1, 3)):
+        vals = [rng.randint(-6, 6) / 8 for _ in range(k_p)]
+        wires = rng.sample(range(n), k_w)
+        apps.append(f"G{idx}({', '.join(repr(v) for v in vals)}) | [{', '.join(map(str, wires))}];")
+        for cls, ps, ws in body:
+            expect.append((cls, [vals[i] for i in ps], [wires[i] for i in ws]))
+        if rng.random() < 0.5:
+            v, w = rng.randint(-6, 6) / 8, rng.randrange(n)
+            apps.append(f"Rgate({v!r}) | [{w}];")
+            expect.append(("Rgate", [v], [w]))
+    text = "\n".join(lines + [""] + apps) + "\n"
+    rp = dict(kind="gatedef", text=text, expect=expect)
+    check_gate_definition(ctx, sf, text, expect, rp)
+
+
+def check_gate_definition(ctx, sf, text, expect, rp):
+    ctx.oracle_cases += 1
+    try:
+        p = sf.io.loads(text, ir="xir")
+        got = [(type(c.op).__name__, [float(x) for x in c.op.p], [r.ind for r in c.reg]) for c in p.circuit]
+    except Exception as e:  # noqa: BLE001
+        ctx.fail(f"xir:gate-definition-raises:{type(e).__name__}", f"{str(e)[:120]} on\n{text}", rp)
+        return
+    exp = [(c, [float(x) for x in ps], list(ws)) for c, ps, ws in expect]
+    if got != exp:
+        ctx.fail("xir:gate-definition-expansion", f"expanded statements {got} != {exp} for\n{text}", rp)
+
+
+def oracle_code_engine(ctx, sf, spec, rng):
+    """generate_code(prog, eng): the engine line must rebuild an engine with the same backend and cutoff"""
+    rp = dict(kind="code_engine", spec=spec)
+    if code_group(spec, ioir.build(spec)) is not None:
+        return
+    ctx.oracle_cases += 1
+    try:
+        backend, opts = rng.choice([("gaussian", {}), ("fock", {"cutoff_dim": rng.randint(3, 7)}), ("bosonic", {})])
+        eng = sf.Engine(backend, backend_options=opts)
+        code = sf.io.generate_code(ioir.build(spec), eng)
+        if "results = eng.run(prog)" not in code:
+            ctx.fail("gencode:engine:no-run-line", code[-80:], rp)
+        ns = {"np": np}
+        exec(code.replace("results = eng.run(prog)", ""), ns)  # noqa: S102
+        e2 = ns["eng"]
+        if e2.backend_name != backend or e2.backend_options.get("cutoff_dim") != opts.get("cutoff_dim"):
+            ctx.fail("gencode:engine:backend-or-cutoff", f"{backend} {opts} became {e2.backend_name} {e2.backend_options}", rp)
+    except Exception as e:  # noqa: BLE001
+        ctx.fail(f"gencode:engine:raises:{type(e).__name__}", f"{str(e)[:120]} ({spec['name']})", rp)
+
+
+def code_group(spec, p):
+    """generate_code is documented for numeric parameters; everything that goes wrong on a program with
+    array / string / symbolic parameters is one input class, likewise programs that delete / create modes"""
     import numbers
     lv = [str(v) for v in getattr(p, "loop_vars", [])]
     plain = all((isinstance(x, numbers.Number) and not isinstance(x, bool)) or str(x) in lv for c in p.circuit for x in c.op.p)
-    # generate_code is documented for numeric parameters; everything that goes wrong on a program with
-    # array / string / symbolic parameters is one input class, likewise Fouriergate (constructor takes no argument)
-    group = None if plain else "gencode:non-numeric-param"
-    if any(o["cls"] == "Fouriergate" for o in spec["ops"]):
-        group = "gencode:Fouriergate"
+    if any(o["cls"] in ("Del", "New") for o in spec["ops"]):
+        return "gencode:Del-New"
+    return None if plain else "gencode:non-numeric-param"
+
+
+def oracle_code(ctx, sf, spec, rp):
+    p = ioir.build(spec)
+    group = code_group(spec, p)
     ctx.oracle_cases += 1
     try:
         code = sf.io.generate_code(p)
@@ -346,6 +526,8 @@ def oracle_pi(ctx, sf, value):
 def expressible(spec, ir):
     """the hypotheses of the round-trip theorems, on a spec"""
     for o in spec["ops"]:
+        if o["cls"] in ("Del", "New"):
+            return False
         for j, x in enumerate(o.get("pars", [])):
             k = ioir.par_kind(x)
             ok = k in ("numeric", "array", "loop", "loopexpr", "free", "measured") or (k == "measured-fn" and ir == "xir") \
@@ -366,21 +548,23 @@ def expressible(spec, ir):
     return True
 
 
-def corr_spec(ctx, sf, spec, reqs, pending):
-    """queue model requests for one spec; real results are computed now"""
+def corr_spec(ctx, sf, spec, reqs, pending, make=None, text=True):
+    """queue model requests for one spec; real results are computed now.  `make` builds the program
+    (default: from the spec; the compiled variant passes the compiler's output)"""
     import blackbird
     import xir
     from strawberryfields.io import to_blackbird, to_xir, to_program
-    case = dict(spec=spec)
+    make = make or (lambda: ioir.build(spec))
+    case = dict(spec=spec) if text else dict(spec=spec, compiled=True)
     kloop = len(spec["tdm"]["params"]) if spec.get("tdm") else 0
     try:
-        pj = ioir.prog_json(ioir.build(spec))
+        pj = ioir.prog_json(make())
     except ioir.Unrep:
         ctx.tally("corr-skipped:unrepresentable")
         return
     # ---- Blackbird writer
     try:
-        bbj = ioir.bb_json(to_blackbird(ioir.build(spec)))
+        bbj = ioir.bb_json(to_blackbird(make()))
         real = {"ok": bbj}
     except ioir.Unrep:
         ctx.tally("corr-skipped:unrepresentable")
@@ -394,7 +578,7 @@ def corr_spec(ctx, sf, spec, reqs, pending):
     if bbj is not None and readers:
         # ---- reader on the IR object
         try:
-            real = {"ok": ioir.prog_json(to_program(to_blackbird(ioir.build(spec))))}
+            real = {"ok": ioir.prog_json(to_program(to_blackbird(make())))}
         except ioir.Unrep:
             real = None
         except Exception as e:  # noqa: BLE001
@@ -403,9 +587,9 @@ def corr_spec(ctx, sf, spec, reqs, pending):
             reqs.append(dict(op="io.fromBB", bb=bbj, parse=ioir.parse_table(bbj, True, kloop)))
             pending.append(("toProgramBB vs to_program(blackbird)", case, real))
         # ---- text layer (hypothesis of the theorems)
-        if expressible(spec, "blackbird"):
+        if text and expressible(spec, "blackbird"):
             try:
-                bb2 = blackbird.loads(to_blackbird(ioir.build(spec)).serialize())
+                bb2 = blackbird.loads(to_blackbird(make()).serialize())
                 real2 = ioir.bb_json(bb2)
                 reqs.append(dict(op="io.reparseBB", bb=bbj)); pending.append(("reparseBB vs blackbird text layer", case, real2))
                 real3 = {"ok": ioir.prog_json(to_program(bb2))}
@@ -415,13 +599,13 @@ def corr_spec(ctx, sf, spec, reqs, pending):
                 ctx.disagree("blackbird text layer raises on an expressible program", case, "identity", repr(e)[:200])
     # ---- XIR writer
     try:
-        xj = ioir.xir_json(to_xir(ioir.build(spec)))
+        xj = ioir.xir_json(to_xir(make()))
     except ioir.Unrep:
         ctx.tally("corr-skipped:unrepresentable")
         return
     reqs.append(dict(op="io.toXIR", prog=pj)); pending.append(("toXIR vs to_xir", case, xj))
     try:
-        real = {"ok": ioir.prog_json(to_program(to_xir(ioir.build(spec))))}
+        real = {"ok": ioir.prog_json(to_program(to_xir(make())))}
     except ioir.Unrep:
         real = None
     except Exception as e:  # noqa: BLE001
@@ -429,9 +613,9 @@ def corr_spec(ctx, sf, spec, reqs, pending):
     if real is not None and readers:
         reqs.append(dict(op="io.fromXIR", xir=xj, parse=ioir.parse_table(xj, False, kloop)))
         pending.append(("toProgramXIR vs to_program(xir)", case, real))
-    if expressible(spec, "xir"):
+    if text and expressible(spec, "xir"):
         try:
-            x2 = xir.parse_script(to_xir(ioir.build(spec)).serialize())
+            x2 = xir.parse_script(to_xir(make()).serialize())
             xj2 = ioir.xir_json(x2)
             ctx.corr_cases += 1
             nospace = lambda j: json.loads(json.dumps(j), object_hook=lambda d: {"str": d["str"].replace(" ", "")} if set(d) == {"str"} else d)
@@ -485,6 +669,8 @@ PLANS = [  # (features, relative weight)
     (("fourier", "dagger", "mz"), 1),
     (("array1d", "string"), 1),
     (("dagger", "options", "extra_opts"), 1),
+    (("repeat", "share", "options"), 2),
+    (("delnew", "dagger"), 1),
 ]
 TDM_PLANS = [
     (("dagger", "options", "select"), 3),
@@ -510,6 +696,38 @@ def nontrivial(spec):
     return len(spec["ops"]) >= 2 and bool(feats)
 
 
+def guarded(ctx, what, spec, fn, *a, **kw):
+    """an exception escaping an oracle / correspondence step becomes a failing input, not a harness crash"""
+    try:
+        fn(*a, **kw)
+    except ioir.Unrep:
+        ctx.tally("skipped:unrepresentable")
+    except Exception as e:  # noqa: BLE001
+        import traceback
+        ctx.fail(f"{what}-raises:{type(e).__name__}", f"{what}: {type(e).__name__}: {str(e)[:150]} ({spec.get('name')}) "
+                 + traceback.format_exc(limit=-2)[-300:], dict(kind="spec", spec=spec, via="text"))
+
+
+def one_spec(ctx, sf, spec, kind, idx, reqs, pending, prev, via=None):
+    ctx.count(kind, spec, nontrivial(spec), sample=spec)
+    guarded(ctx, "oracle", spec, oracle_spec, ctx, sf, spec, via=via or ("file" if idx % 5 == 0 else "text"))
+    guarded(ctx, "correspondence", spec, corr_spec, ctx, sf, spec, reqs, pending)
+    if prev is not None and idx % 3 == 0 and bool(prev.get("tdm")) == bool(spec.get("tdm")):
+        oracle_history(ctx, sf, spec, prev, share=(idx % 2 == 0))
+    if idx % 2 == 0 and runnable_backend(spec) == "gaussian" and not any(o["cls"] in ("Del", "New") for o in spec["ops"]):
+        oracle_compiled(ctx, sf, spec)
+        try:
+            ioir.build(spec).compile(compiler="gaussian")
+            guarded(ctx, "correspondence", spec, corr_spec, ctx, sf, spec, reqs, pending,
+                    make=lambda: ioir.build(spec).compile(compiler="gaussian"), text=False)
+        except Exception:  # noqa: BLE001
+            pass
+    if idx % 4 == 1:
+        oracle_add_decl(ctx, sf, spec)
+    if idx % 6 == 2:
+        oracle_code_engine(ctx, sf, spec, ctx.rng)
+
+
 def run(ctx, sf):
     rng = ctx.rng
     reqs, pending = [], []
@@ -519,33 +737,34 @@ def run(ctx, sf):
             oracle_pi(ctx, sf, float(val))
     for _ in range(ctx.n(200, 2000)):
         oracle_pi(ctx, sf, rng.choice([rng.uniform(-20, 20), rng.randint(-9, 9) / 4, rng.randint(-40, 40) * float(np.pi) / rng.choice([1, 2, 3, 4, 6, 12, 5, 7])]))
+    for i in range(ctx.n(30, 300)):
+        oracle_gate_definition(ctx, sf, rng, i)
+    prev = None
+    idx = 0
     for spec in corpus_specs():
-        ctx.count("corpus", spec, nontrivial(spec))
-        oracle_spec(ctx, sf, spec, via="text")
-        oracle_spec(ctx, sf, spec, via="file", check_state=False, check_code=False)
-        corr_spec(ctx, sf, spec, reqs, pending)
+        one_spec(ctx, sf, spec, "corpus", idx, reqs, pending, prev, via="text"); idx += 1
+        guarded(ctx, "oracle", spec, oracle_spec, ctx, sf, spec, via="file", check_state=False, check_code=False)
+        prev = spec
     total = ctx.n(260, 8000)
     wsum = sum(w for _, w in PLANS)
-    idx = 0
     for feats, w in PLANS:
         for _ in range(max(4, total * w // wsum)):
             spec = ioir.rand_spec(rng, idx, set(feats)); idx += 1
-            ctx.count("prog:" + "+".join(feats), spec, nontrivial(spec), sample=spec)
-            oracle_spec(ctx, sf, spec, via="file" if idx % 5 == 0 else "text")
-            corr_spec(ctx, sf, spec, reqs, pending)
+            one_spec(ctx, sf, spec, "prog:" + "+".join(feats), idx, reqs, pending, prev)
+            prev = spec
     for _ in range(ctx.n(40, 500)):
         spec = ioir.rand_history_spec(rng, idx); idx += 1
         ctx.count("history:" + "+".join(sorted(spec["history"])), spec, True, sample=spec)
-        oracle_spec(ctx, sf, spec, via="text", check_state=False, check_code=False)
-        corr_spec(ctx, sf, spec, reqs, pending)
+        guarded(ctx, "oracle", spec, oracle_spec, ctx, sf, spec, via="text", check_state=False, check_code=False)
+        guarded(ctx, "correspondence", spec, corr_spec, ctx, sf, spec, reqs, pending)
     total_t = ctx.n(90, 2500)
     wsum = sum(w for _, w in TDM_PLANS)
+    prev = None
     for feats, w in TDM_PLANS:
         for _ in range(max(4, total_t * w // wsum)):
             spec = ioir.rand_tdm_spec(rng, idx, set(feats)); idx += 1
-            ctx.count("tdm:" + "+".join(feats), spec, nontrivial(spec), sample=spec)
-            oracle_spec(ctx, sf, spec, via="file" if idx % 5 == 0 else "text")
-            corr_spec(ctx, sf, spec, reqs, pending)
+            one_spec(ctx, sf, spec, "tdm:" + "+".join(feats), idx, reqs, pending, prev)
+            prev = spec
         if len(reqs) > 3000:
             compare(ctx, reqs, pending); reqs, pending = [], []
     compare(ctx, reqs, pending)
@@ -559,11 +778,22 @@ def search(ctx, sf):
 
 def replay(ctx, rp):
     import strawberryfields as sf
+    from lib import core
     n0 = len(ctx.failures)
-    if rp.get("kind") == "pi":
+    kind = rp.get("kind")
+    if kind == "pi":
         oracle_pi(ctx, sf, rp["value"])
+    elif kind == "pair":
+        oracle_history(ctx, sf, rp["a"], rp["b"], rp.get("share", False))
+    elif kind == "compiled":
+        oracle_compiled(ctx, sf, rp["spec"])
+    elif kind == "add_decl":
+        oracle_add_decl(ctx, sf, rp["spec"])
+    elif kind == "gatedef":
+        check_gate_definition(ctx, sf, rp["text"], [tuple(e) for e in rp["expect"]], rp)
+    elif kind == "code_engine":
+        oracle_code_engine(ctx, sf, rp["spec"], ctx.rng)
     else:
         oracle_spec(ctx, sf, rp["spec"], via=rp.get("via", "text"))
-    from lib import core
     known = core.Known()
     return any(not known.match(ctx.pid, f["sig"]) for f in ctx.failures[n0:])
